@@ -178,6 +178,8 @@ func (rp *replayer) plan(term string, t types.Type, depth int) *rplan {
 		et := u.Elem()
 		n := 0
 		switch {
+		case isInt(et) && intWidth(et) == 8 && depth <= 2:
+			n = 2048 // byte buffers: everything a "small" model can contain
 		case isInt(et) || isBool(et):
 			n = 96
 		case isAggregate(et):
@@ -562,7 +564,14 @@ func (g *Global) replay(r *Result, prop, dir string) replayOut {
 	ctx, cancel := context.WithTimeout(context.Background(), 90*time.Second)
 	defer cancel()
 	var ans solverAnswer
-	if len(small) > 0 {
+	if len(small) > 0 && r.Ob.Witness != "" {
+		w := append(append([]string{}, small...), r.Ob.Witness)
+		ans = runSolver(ctx, solvers[1], vc.script(r.Ob, r.Case, strings.Join(w, "\n"), rp.queries), 20)
+		if ans.status != "sat" {
+			ans = runSolver(ctx, solvers[0], vc.script(r.Ob, r.Case, strings.Join(w, "\n"), rp.queries), 20)
+		}
+	}
+	if len(small) > 0 && ans.status != "sat" {
 		ans = runSolver(ctx, solvers[0], vc.script(r.Ob, r.Case, strings.Join(small, "\n"), rp.queries), 20)
 		if ans.status != "sat" {
 			ans = runSolver(ctx, solvers[1], vc.script(r.Ob, r.Case, strings.Join(small, "\n"), rp.queries), 20)
@@ -638,17 +647,25 @@ func (g *Global) replay(r *Result, prop, dir string) replayOut {
 	}
 	want := expectedPanic(r.Ob)
 	var src bytes.Buffer
-	fmt.Fprintf(&src, "package %s\n\nimport (\n\t\"fmt\"\n\t\"math\"\n\t\"os\"\n\t\"reflect\"\n\t\"testing\"\n\t\"time\"\n\t\"unsafe\"\n", fn.Pkg.Pkg.Name())
+	fmt.Fprintf(&src, "package %s\n\nimport (\n\t\"fmt\"\n\t\"math\"\n\t\"os\"\n\t\"reflect\"\n\t\"runtime\"\n\t\"testing\"\n\t\"time\"\n\t\"unsafe\"\n", fn.Pkg.Pkg.Name())
 	for path, name := range rp.imports {
-		if path == "fmt" || path == "math" || path == "os" || path == "reflect" || path == "testing" || path == "time" || path == "unsafe" {
+		if path == "fmt" || path == "math" || path == "os" || path == "reflect" || path == "runtime" || path == "testing" || path == "time" || path == "unsafe" {
 			continue
 		}
 		fmt.Fprintf(&src, "\t%s %q\n", name, path)
 	}
 	fmt.Fprintf(&src, ")\n\nvar _ = math.Pi\nvar _ = fmt.Sprint\nvar _ = time.Now\n%s\n", replayRuntime)
 	fmt.Fprintf(&src, "// replay of obligation %s\nfunc TestVerifReplay(t *testing.T) {\n", r.Ob.Name)
-	fmt.Fprintf(&src, "\tdone := make(chan string, 1)\n\tgo func() {\n\t\tdefer func() {\n\t\t\tif r := recover(); r != nil {\n\t\t\t\tdone <- fmt.Sprint(\"PANIC: \", r)\n\t\t\t\treturn\n\t\t\t}\n\t\t\tdone <- \"RETURNED\"\n\t\t}()\n")
+	fmt.Fprintf(&src, "\tdone := make(chan string, 1)\n\tgo func() {\n\t\tvar ms0, ms1 runtime.MemStats\n\t\tinb := 0\n\t\tdefer func() {\n\t\t\tif r := recover(); r != nil {\n\t\t\t\tdone <- fmt.Sprint(\"PANIC: \", r)\n\t\t\t\treturn\n\t\t\t}\n\t\t\truntime.ReadMemStats(&ms1)\n\t\t\tdone <- fmt.Sprintf(\"RETURNED alloc=%%d input=%%d\", ms1.TotalAlloc-ms0.TotalAlloc, inb)\n\t\t}()\n")
 	src.Write(rp.code.Bytes())
+	for i, p := range plans {
+		if sl, ok := p.ty.Underlying().(*types.Slice); ok {
+			if bt, ok := sl.Elem().Underlying().(*types.Basic); ok && bt.Kind() == types.Uint8 {
+				fmt.Fprintf(&src, "\t\tinb += len(a%d)\n", i)
+			}
+		}
+	}
+	fmt.Fprintf(&src, "\t\truntime.ReadMemStats(&ms0)\n")
 	fmt.Fprintf(&src, "\t\t%s\n\t}()\n", indentCall(call, fn.Signature.Results().Len()))
 	fmt.Fprintf(&src, "\tselect {\n\tcase m := <-done:\n\t\tfmt.Fprintln(os.Stderr, \"VPREPLAY\", m)\n\tcase <-time.After(20 * time.Second):\n\t\tfmt.Fprintln(os.Stderr, \"VPREPLAY HANG: no return after 20s\")\n\t}\n}\n")
 	testFile := filepath.Join(dir, mangle(r.Ob.Name)+"_test.go.txt")
@@ -660,7 +677,7 @@ func (g *Global) replay(r *Result, prop, dir string) replayOut {
 	_ = os.WriteFile(ovPath, ovData, 0o644)
 	cctx, ccancel := context.WithTimeout(context.Background(), 180*time.Second)
 	defer ccancel()
-	cmd := exec.CommandContext(cctx, "go", "test", "-overlay", ovPath, "-vet=off", "-tags", "verif", "-count=1", "-v", "-timeout", "60s", "-run", "^TestVerifReplay$", ".")
+	cmd := exec.CommandContext(cctx, "go", "test", "-overlay", ovPath, "-exec", filepath.Join(g.verifDir, "tools", "memlimit.sh"), "-vet=off", "-tags", "verif", "-count=1", "-v", "-timeout", "60s", "-run", "^TestVerifReplay$", ".")
 	cmd.Dir = pkgDir
 	cmd.Env = append(os.Environ(), "GOFLAGS=-mod=mod", "GOPROXY=off", "GOSUMDB=off", "GOTOOLCHAIN=local")
 	res, _ := cmd.CombinedOutput()
@@ -674,8 +691,23 @@ func (g *Global) replay(r *Result, prop, dir string) replayOut {
 	for _, p := range rp.partial {
 		fmt.Fprintf(&out, "  note: %s\n", p)
 	}
+	if outcome == "" && (strings.Contains(string(res), "out of memory") || strings.Contains(string(res), "cannot allocate memory")) {
+		outcome = "OOM: the Go runtime ran out of memory under the 4 GiB address-space limit of the replay"
+	}
 	confirmed := false
 	switch {
+	case r.Ob.Kind == "alloc" && strings.HasPrefix(outcome, "OOM"):
+		confirmed = true
+		fmt.Fprintf(&out, "replay outcome on the real code: %s — CONFIRMED (allocation obligation)\n", outcome)
+	case r.Ob.Kind == "alloc" && strings.HasPrefix(outcome, "RETURNED alloc="):
+		var al, in int64
+		fmt.Sscanf(outcome, "RETURNED alloc=%d input=%d", &al, &in)
+		if al > 64*in+(4<<20) {
+			confirmed = true
+			fmt.Fprintf(&out, "replay outcome on the real code: %s — CONFIRMED: more than 64*input + 4 MiB allocated\n", outcome)
+		} else {
+			fmt.Fprintf(&out, "replay outcome on the real code: %s — within 64*input + 4 MiB; not exhibited by this input\n", outcome)
+		}
 	case outcome == "":
 		fmt.Fprintf(&out, "replay outcome: the replay test did not run to completion:\n%s\n", trim(string(res), 3000))
 	case strings.HasPrefix(outcome, "HANG") && (r.Ob.Kind == "decreases"):
@@ -728,6 +760,15 @@ func expectedPanic(ob *Obligation) string {
 		return "*"
 	}
 	if strings.HasPrefix(ob.Kind, "pre:") {
+		// panicking preconditions of assumed library contracts (package reflect)
+		switch {
+		case strings.HasSuffix(ob.Name, "#makelen") || strings.Contains(ob.Name, "#makelen@"):
+			return "MakeSlice"
+		case strings.HasSuffix(ob.Name, "#index") || strings.Contains(ob.Name, "#index@"):
+			return "index out of range"
+		case strings.HasSuffix(ob.Name, "#slice") || strings.Contains(ob.Name, "#slice@"):
+			return "slice index out of bounds"
+		}
 		return ""
 	}
 	return ""
